@@ -362,3 +362,32 @@ class ApiGen:
                 self.rep_frame(0, amqp.connection_close_ok(), [])
             self.op("conn close")
         return Case("a", self.ops, {"keep_prefix": 1})
+
+
+def panic_drop_cases(rng, n):
+    """A channel that goes out of scope because a panic unwinds through its owner is dropped like any
+    other: Channel.Close is sent and its CloseOk awaited; the other channels are used afterwards."""
+    from vlib import Case
+    cases = []
+    for i in range(n):
+        g = ApiGen(rng, 4096)
+        ids = rng.sample(range(1, 9), rng.randint(2, 3))
+        for c in ids:
+            g.open(c)
+        victim = ids[0]
+        for _ in range(rng.randint(0, 2)):
+            g.random_call(rng.choice(ids))
+        victim_alive = victim in g.chans
+        if victim_alive:
+            if rng.random() < 0.15:
+                g.ok_reply(victim, "queue.purge-ok")       # a stale reply where CloseOk is expected: the close fails, silently
+            g.rep_frame(victim, amqp.channel_close_ok(victim), [])
+            g.op("drop-panic-chan %d" % victim)
+            g.chans.remove(victim)
+            for cl in [c for c, v in g.consumers.items() if v[0] == victim]:
+                del g.consumers[cl]
+        for c in ids[1:]:
+            if c in g.chans:
+                g.random_call(c)
+        cases.append(Case("p%d" % i, g.ops, {"keep_prefix": 1 + len(ids)}))
+    return cases
